@@ -2,7 +2,7 @@
    groups of numbers (header, data, operations); the result is a list of groups.  The
    same function is run extracted (OCaml driver) and inside Coq (cases.v, vm_compute);
    the Rust harness interprets the same case language against the real crate. *)
-From DSI Require Export World Dispatch Names Small Stats CodeDefs.
+From DSI Require Export World Dispatch Names Small Stats CodeDefs CursorModel.
 From DSI.Gen Require Export GenTables GenParams.
 From Coq Require Import Ascii.
 Open Scope list_scope.
@@ -534,6 +534,8 @@ Definition run_case (flags : list N) (groups : list (list N)) : list (list N) :=
   | 7 => run_memw (nth0 hdr 1) {| mw_data := data; mw_pos := 0 |} ops
   | 8 => if nth0 hdr 2 =? 0
          then run_adapter_write (nth0 hdr 1) (map event_of data) (hd [] ops) []
+         else if nth0 hdr 2 =? 2
+         then cursor_case (nth0 hdr 1) data ops     (* the adapter over a seekable in-memory byte cursor *)
          else run_adapter_read (nth0 hdr 1) (N.to_nat (nth0 hdr 3)) (map event_of data) (hd [] ops)
   | 9 => run_stats stats_default [] ops
   | 10 => run_fcp hdr data
